@@ -28,7 +28,8 @@ ASSUMPTIONS = ['a crash during the cache write leaves a prefix of the intended f
 REQUIRED = ['mon.cached_connects', 'mon.cache_hits', 'mon.truncation_offsets', 'mon.truncated_connects',
             'mon.garbled_files', 'mon.crc_collision_cases', 'mon.ro_dir_audited', 'mon.audit_events_seen',
             'mon.files_vanished_before_connect', 'mon.files_with_a_field_missing',
-            'mon.crc_collision_with_one_empty_table', 'mon.store_load_round_trips']
+            'mon.crc_collision_with_one_empty_table', 'mon.store_load_round_trips',
+            'mon.interrupted_download_then_other_firmware_histories']
 DESC_TIMEOUT = 1500
 EXHAUSTIVE = {'quick': False, 'thorough': False}
 EXHAUSTIVE_NOTE = 'truncation offsets are enumerated completely for every written cache file (fetch level); connections on a sample'
@@ -77,6 +78,7 @@ def cases(tier, seed):
                     'proto': rnd.choice((10, 10, 3)), 'config': CONFIGS[i % len(CONFIGS)], 'crc': crc_mode,
                     'connect_samples': 6 if tier == 'quick' else 40, 'latin': i % 4 == 0})
     out.append({'seed': seed * 31 + 7, 'part': 'storeload'})
+    out += [{'seed': seed * 1009 + 400 + i, 'part': 'history'} for i in range(10 if tier == 'quick' else 80)]
     # an empty table whose checksum collides with the (non-empty) table of the other kind
     for j, (nl, npar, cfg) in enumerate(((0, 5, 'rw'), (4, 0, 'rw'), (0, 3, 'ro+rw'), (6, 0, 'none'), (0, 0, 'rw'), (0, 1, 'ro'))):
         out.append({'seed': seed * 1000003 + 5000 + j, 'nlog': nl, 'nparam': npar, 'proto': 10 if j % 2 == 0 else 3, 'config': cfg,
@@ -177,11 +179,99 @@ def run_store_load(desc, ctx):
         shutil.rmtree(base, ignore_errors=True)
 
 
+def run_history(desc, ctx):
+    """One Crazyflie object with a read-write cache: a download from firmware X is cut short by close_link(), the same
+    object then connects to firmware Y (other checksums); later a fresh object with the same cache connects to X.
+    What is stored under a checksum must be what that firmware announced: X's tables, entry for entry."""
+    from vf import detsched as ds, simcf, simlink
+    from cflib.crazyflie import Crazyflie
+    rnd = random.Random(desc['seed'])
+    nx = rnd.randint(4, 10)
+    profx = gen.profile(desc['seed'], nx, rnd.randint(2, 8), proto=10)
+    profy = gen.profile(desc['seed'] + 17, nx + rnd.randint(0, 4), rnd.randint(2, 8) + 8, proto=10)
+    devx, devy = simcf.SimCF(profx), simcf.SimCF(profy)
+    base = tempfile.mkdtemp(prefix='vf_c11h_')
+    rw = os.path.join(base, 'rw')
+    simlink.SIMS['sim://c11x'] = simlink.LinkSpec(devx, latency=0.001)
+    simlink.SIMS['sim://c11y'] = simlink.LinkSpec(devy, latency=0.001)
+    ob = {}
+    cut = rnd.randint(3, 10 + nx)
+
+    def fn(s):
+        devx.now = devy.now = lambda: s.now
+        cf = Crazyflie(rw_cache=rw)
+        done = ds.Event()
+        cf.connected.add_callback(lambda u: done.set())
+        cf.connection_failed.add_callback(lambda u, m: done.set())
+        spec = simlink.SIMS['sim://c11x']
+        cf.open_link('sim://c11x')
+        g = 0
+        while spec.n_rx < cut and not done.is_set() and g < 100000:
+            s.sleep(0.0005)
+            g += 1
+        ob['cut_before_connected'] = not done.is_set()
+        cf.close_link()
+        s.sleep(rnd.choice((0.0, 0.3)))
+        done.clear()
+        cf.open_link('sim://c11y')
+        done.wait(300.0)
+        s.sleep(0.3)
+        ob['y_log'], ob['y_param'] = oracles.snapshot_toc(cf.log.toc), oracles.snapshot_toc(cf.param.toc)
+        cf.close_link()
+        s.sleep(0.3)
+        cf2 = Crazyflie(rw_cache=rw)
+        d2 = ds.Event()
+        cf2.connected.add_callback(lambda u: d2.set())
+        cf2.connection_failed.add_callback(lambda u, m: d2.set())
+        cf2.open_link('sim://c11x')
+        d2.wait(300.0)
+        s.sleep(0.3)
+        ob['x_log'], ob['x_param'] = oracles.snapshot_toc(cf2.log.toc), oracles.snapshot_toc(cf2.param.toc)
+        cf2.close_link()
+    try:
+        _, abort, sch = harness.sched_case(fn, seed=desc['seed'], policy=('rtb', 'random')[desc['seed'] % 2], horizon=2000.0)
+        ctx.evals()
+        ctx.count('mon.interrupted_download_then_other_firmware_histories')
+        ctx.nontrivial(('history', desc['seed']))
+        rp = dict(desc)
+        if abort is not None:
+            ctx.violate('cache:history:connection-hangs', {'abort': str(abort)}, replay=rp)
+            return
+        for (name, exc, tb) in sch.deaths:
+            ctx.violate('cache:history:thread-died:%s' % exc.split('(')[0], {'traceback': tb}, replay=rp)
+        for label, got, exp in (('firmware-Y:log', ob.get('y_log'), oracles.expected_log(devy)),
+                                ('firmware-Y:param', ob.get('y_param'), oracles.expected_param(devy)),
+                                ('firmware-X-later:log', ob.get('x_log'), oracles.expected_log(devx)),
+                                ('firmware-X-later:param', ob.get('x_param'), oracles.expected_param(devx))):
+            for m, d in oracles.diff_table(label.split(':')[1], got, exp):
+                ctx.violate('cache:history:%s:%s' % (label.split(':')[0], m), dict(d, cut_after_packets=cut), replay=rp)
+        # every file in the cache holds the table of the firmware that announces that checksum
+        from cflib.crazyflie.toc import Toc
+        from cflib.crazyflie.toccache import TocCache
+        want = {profx['log_crc']: oracles.expected_log(devx), profx['param_crc']: oracles.expected_param(devx),
+                profy['log_crc']: oracles.expected_log(devy), profy['param_crc']: oracles.expected_param(devy)}
+        for crc, exp in want.items():
+            data = TocCache(rw_cache=rw).fetch(crc)
+            if data:
+                t = Toc()
+                t.toc = data
+                kind = 'log' if crc in (profx['log_crc'], profy['log_crc']) else 'param'
+                bad = oracles.diff_table(kind, oracles.snapshot_toc(t), exp)
+                bad = [b for b in bad if 'persistent' not in b[0]]       # (the persistence marker is not cached)
+                if bad:
+                    ctx.violate('cache:history:file-holds-a-table-its-firmware-never-announced:' + bad[0][0],
+                                dict(bad[0][1], checksum='%08X' % crc), replay=rp)
+    finally:
+        shutil.rmtree(base, ignore_errors=True)
+
+
 def run(desc, ctx):
     harness.init()
     worker_init()
     if desc.get('part') == 'storeload':
         return run_store_load(desc, ctx)
+    if desc.get('part') == 'history':
+        return run_history(desc, ctx)
     rnd = random.Random(desc['seed'])
     prof = gen.profile(desc['seed'], desc['nlog'], desc['nparam'], proto=desc['proto'], latin=desc['latin'])
     if desc['crc'] == 'collide':
